@@ -265,14 +265,18 @@ pub uninterp spec fn eval_st(i: Instruction, s: int) -> int;
 pub uninterp spec fn st_layer(s: int) -> int;                       // create_layer
 pub uninterp spec fn st_insert(s: int, name: Name, v: Variable) -> int;
 
+//@BEGIN instruction_exec_stub
 impl Instruction {
-    /// `impl Exec for Instruction` is a match_any! dispatch to the per-kind `exec`; trusted.
+    /// `impl Exec for Instruction`: eval_res / eval_st ARE, by definition, what this function returns and the state
+    /// it leaves.  Its body (the match_any! dispatch to the per-kind `exec`) is proved in the unit instruction.exec,
+    /// where this stub is left out.
     #[verifier::external_body]
     pub fn exec(&self, interpreter: &mut Interpreter) -> (r: ExecResult)
         ensures r == eval_res(*self, old(interpreter).st@),
                 final(interpreter).st@ == eval_st(*self, old(interpreter).st@)
     { unimplemented!() }
 }
+//@END instruction_exec_stub
 
 impl Interpreter {
     #[verifier::external_body]
@@ -486,18 +490,21 @@ pub open spec fn spec_len(v: Variable) -> nat {
 }
 
 // ----- abstract machine of the recreate (constant folding) pass -------------------------------
-pub struct LocalVariables { pub st: Ghost<int> }
+pub struct LocalVariables { pub st: Ghost<int>, pub interpreter: Box<Interpreter> }   // `interpreter: &Interpreter` in /repo (the embedding interpreter the program is parsed against)
 pub uninterp spec fn rec_res(i: Instruction, s: int) -> Result<Instruction, ExecError>;
 pub uninterp spec fn rec_st(i: Instruction, s: int) -> int;
 pub uninterp spec fn lv_layer(s: int) -> int;
+//@BEGIN instruction_recreate_stub
 impl Instruction {
-    /// `impl Recreate for Instruction` (match_any! dispatch); trusted
+    /// `impl Recreate for Instruction`: rec_res / rec_st ARE what this function returns; its body (match_any!
+    /// dispatch) is proved in the unit instruction.recreate, where this stub is left out.
     #[verifier::external_body]
     pub fn recreate(&self, local_variables: &mut LocalVariables) -> (r: Result<Instruction, ExecError>)
         ensures r == rec_res(*self, old(local_variables).st@),
                 final(local_variables).st@ == rec_st(*self, old(local_variables).st@)
     { unimplemented!() }
 }
+//@END instruction_recreate_stub
 // derive_more::From on Instruction for the Arc-wrapped kinds (assumed: wraps in Arc::new)
 impl vstd::std_specs::convert::FromSpecImpl<BinOperation> for Instruction {
     open spec fn obeys_from_spec() -> bool { true }
@@ -609,4 +616,5 @@ impl std::fmt::Debug for Variable { fn fmt(&self, _: &mut std::fmt::Formatter<'_
 impl std::fmt::Display for Str { fn fmt(&self, _: &mut std::fmt::Formatter<'_>) -> std::fmt::Result { Ok(()) } }
 impl std::fmt::Display for Type { fn fmt(&self, _: &mut std::fmt::Formatter<'_>) -> std::fmt::Result { Ok(()) } }
 impl std::fmt::Display for Arr { fn fmt(&self, _: &mut std::fmt::Formatter<'_>) -> std::fmt::Result { Ok(()) } }
+impl std::fmt::Display for Name { fn fmt(&self, _: &mut std::fmt::Formatter<'_>) -> std::fmt::Result { Ok(()) } }
 fn main() {}
